@@ -222,14 +222,74 @@ func c05GenTyped(g *Gen, typ string, depth int) c05Doc {
 			m[term] = s
 			fv.SetString(s)
 		case f.Type == tSource:
-			m[term] = map[string]any{"content": "source text", "mediaType": "text/markdown"}
-			fv.Set(reflect.ValueOf(ap.Source{MediaType: "text/markdown", Content: ap.NaturalLanguageValues{{Ref: ap.NilLangRef, Value: ap.Content("source text")}}}))
+			// the parts in every combination: media type, content as plain string or as language map
+			sm := map[string]any{}
+			src := ap.Source{}
+			shape := g.Intn(5)
+			if shape != 1 {
+				sm["mediaType"] = "text/markdown"
+				src.MediaType = "text/markdown"
+			}
+			switch {
+			case shape == 0 || shape == 1:
+				sm["content"] = "source text"
+				src.Content = ap.NaturalLanguageValues{{Ref: ap.NilLangRef, Value: ap.Content("source text")}}
+			case shape == 2 || shape == 3:
+				sm["contentMap"] = map[string]any{"en": "source", "fr": "la source"}
+				src.Content = ap.NaturalLanguageValues{{Ref: "en", Value: ap.Content("source")}, {Ref: "fr", Value: ap.Content("la source")}}
+			}
+			m[term] = sm
+			fv.Set(reflect.ValueOf(src))
 		case f.Type == tEndp:
-			m[term] = map[string]any{"sharedInbox": "https://example.com/shared"}
-			fv.Set(reflect.ValueOf(&ap.Endpoints{SharedInbox: ap.IRI("https://example.com/shared")}))
+			// a non-empty subset of the six endpoints, each as IRI string, embedded object or array of those
+			em := map[string]any{}
+			e := &ap.Endpoints{}
+			six := []struct {
+				term string
+				set  func(ap.Item)
+			}{{"uploadMedia", func(it ap.Item) { e.UploadMedia = it }}, {"oauthAuthorizationEndpoint", func(it ap.Item) { e.OauthAuthorizationEndpoint = it }},
+				{"oauthTokenEndpoint", func(it ap.Item) { e.OauthTokenEndpoint = it }}, {"provideClientKey", func(it ap.Item) { e.ProvideClientKey = it }},
+				{"signClientKey", func(it ap.Item) { e.SignClientKey = it }}, {"sharedInbox", func(it ap.Item) { e.SharedInbox = it }}}
+			must := g.Intn(len(six))
+			for k, ep := range six {
+				if k != must && !g.Chance(1, 3) {
+					continue
+				}
+				if g.Chance(1, 4) {
+					n := 2 + g.Intn(2)
+					arr := make([]any, n)
+					col := make(ap.ItemCollection, n)
+					for q := 0; q < n; q++ {
+						arr[q], col[q] = single()
+					}
+					em[ep.term] = arr
+					ep.set(col)
+				} else {
+					j, v := single()
+					em[ep.term] = j
+					ep.set(v)
+				}
+			}
+			m[term] = em
+			fv.Set(reflect.ValueOf(e))
 		case f.Type == tPubKey:
-			m[term] = map[string]any{"id": "https://example.com/k", "owner": "https://example.com/actors/alice", "publicKeyPem": "-----BEGIN PUBLIC KEY-----\nMIIB\n-----END PUBLIC KEY-----"}
-			fv.Set(reflect.ValueOf(ap.PublicKey{ID: "https://example.com/k", Owner: "https://example.com/actors/alice", PublicKeyPem: "-----BEGIN PUBLIC KEY-----\nMIIB\n-----END PUBLIC KEY-----"}))
+			pm := map[string]any{}
+			pk := ap.PublicKey{}
+			shape := g.Intn(4)
+			if shape != 1 {
+				pm["id"] = "https://example.com/k"
+				pk.ID = "https://example.com/k"
+			}
+			if shape != 2 {
+				pm["publicKeyPem"] = "-----BEGIN PUBLIC KEY-----\nMIIB\n-----END PUBLIC KEY-----"
+				pk.PublicKeyPem = "-----BEGIN PUBLIC KEY-----\nMIIB\n-----END PUBLIC KEY-----"
+			}
+			if shape != 3 {
+				pm["owner"] = "https://example.com/actors/alice"
+				pk.Owner = "https://example.com/actors/alice"
+			}
+			m[term] = pm
+			fv.Set(reflect.ValueOf(pk))
 		}
 	}
 	return c05Doc{m: m, val: pv.Interface().(ap.Item)}
